@@ -11,6 +11,39 @@ UNITS = []
 USES_THEORY = False
 
 
+def crafted():
+    """systematic family: a durative action holding a condition over each kind of (half-)open interval, and an
+    instantaneous action that establishes / destroys the condition at every position relative to the interval ends"""
+    from unified_planning.shortcuts import (Problem, Fluent, BoolType, DurativeAction, InstantaneousAction, StartTiming, EndTiming,
+                                            ClosedTimeInterval, OpenTimeInterval, LeftOpenTimeInterval, RightOpenTimeInterval)
+    out = []
+    for mk in (ClosedTimeInterval, OpenTimeInterval, LeftOpenTimeInterval, RightOpenTimeInterval):
+        for lo_delay in (0, 1):
+            for set_at_start in (True, False):
+                pr = Problem(f"crafted_{mk.__name__}_{lo_delay}_{set_at_start}")
+                light, done = Fluent("light", BoolType()), Fluent("done", BoolType())
+                pr.add_fluent(light, default_initial_value=not set_at_start)
+                pr.add_fluent(done, default_initial_value=False)
+                w = DurativeAction("work")
+                w.set_fixed_duration(4)
+                if set_at_start:
+                    w.add_effect(StartTiming(), light, True)
+                w.add_condition(mk(StartTiming() + lo_delay, EndTiming()), light)
+                w.add_effect(EndTiming(), done, True)
+                off = InstantaneousAction("switch_off")
+                off.add_effect(light, False)
+                on = InstantaneousAction("switch_on")
+                on.add_effect(light, True)
+                pr.add_action(w)
+                pr.add_action(off)
+                pr.add_action(on)
+                pr.add_goal(done)
+                for t_off in (Fraction(1, 2), 1, Fraction(7, 2), 4, Fraction(9, 2), 6):
+                    out.append((pr, [(Fraction(0), w, (), Fraction(4)), (Fraction(t_off), off, (), None)]))
+                    out.append((pr, [(Fraction(1), w, (), Fraction(4)), (Fraction(0), off, (), None), (Fraction(t_off), on, (), None)]))
+    return out
+
+
 def bounded(tier, seed):
     from rtc.tgen import TGen
     from spec import tempsem
@@ -23,6 +56,10 @@ def bounded(tier, seed):
     with warnings.catch_warnings():
         warnings.simplefilter("ignore")
         tv = TimeTriggeredPlanValidator()
+        work = []
+        for idx, (pr, plan) in enumerate(crafted()):
+            if tv.supports(pr.kind):
+                work.append((f"crafted{idx}", pr, [plan]))
         for i in range(nprob):
             s = (seed + 3) * 100003 + i
             g = TGen(s, timed=False)
@@ -32,8 +69,9 @@ def bounded(tier, seed):
                 continue
             if not tv.supports(pr.kind):
                 continue
-            for k in range(nplans):
-                plan = g.plan(pr)
+            work.append((s, pr, [g.plan(pr) for _ in range(nplans)]))
+        for s, pr, plans_ in work:
+            for plan in plans_:
                 if not plan:
                     continue
                 try:
@@ -89,7 +127,11 @@ def bounded(tier, seed):
                     failures.append({"what": f"seed {s}: conversion back raised {type(e).__name__}: {e}", "concrete": desc, "observed": repr(e)})
                     continue
                 if not ok2 or res.status != ValidationResultStatus.VALID:
-                    failures.append({"what": f"seed {s}: plan converted back from the STN is invalid ({why or res.status.name})",
+                    from unified_planning.model import DurativeAction as _DA
+                    sig = "plain"
+                    if any(isinstance(a, _DA) and not (a.duration.lower.is_constant() and a.duration.upper.is_constant()) for _, a, _, _ in plan):
+                        sig = "fluent-dependent-duration-bound"
+                    failures.append({"what": f"seed {s}: plan converted back from the STN is invalid ({why or res.status.name}) [{sig}]",
                                      "concrete": desc, "observed": [f"{st}: {ai} [{d}]" for st, ai, d in back.timed_actions]})
                 if len(samples) < 3 and len(plan) >= 2:
                     samples.append({"problem": pr.name, "plan": desc["plan"], "back": [f"{st}: {ai} [{d}]" for st, ai, d in back.timed_actions]})
